@@ -99,6 +99,8 @@ func alphabet(thorough bool) []string {
 		"list hot", "source_path=" + srcA, "source_path=" + srcB,
 		"top 1 a", "top -b", "top -cum", "tree b", "peek a", "traces", "tags x", "dot", "callgrind", "text c",
 		"focus=a", "hide=b", "tagroot=k", "tagfocus=x", "lines", "files", "noinlines=true", "sample_index=1", "nodecount=1", ":",
+		// assignments pprof rejects (see rejected): they must leave the option values alone
+		"sort=cum", "sort=sideways", "granularity=cheese", "nodecount=abc",
 	}
 	if thorough {
 		a = append(a, "ignore=c", "show_from=a", "trim_path=/src", "call_tree", "mean", "taghide=k", "prune_from=b", "relative_percentages", "show=a|r")
@@ -107,6 +109,11 @@ func alphabet(thorough bool) []string {
 }
 
 var probes = []string{"top", "top -cum", "tree", "peek .", "traces", "tags", "dot", "callgrind", "raw", "proto", "list hot|cold"}
+
+// rejected lists the assignments of the alphabet that are invalid by the documentation of the
+// option (a value outside the documented choices, a non-number for a number): pprof prints an
+// error and the option keeps its value, so the reference session does not get them at all.
+var rejected = map[string]bool{"sort=sideways": true, "granularity=cheese": true, "nodecount=abc": true}
 
 func isAssignment(line string) bool {
 	if line == ":" {
@@ -229,7 +236,7 @@ func checkHistory(c *vk.Ctx, pn string, data []byte, h []string, fresh map[strin
 	}
 	var assigns []string
 	for _, l := range h {
-		if isAssignment(l) {
+		if isAssignment(l) && !rejected[l] {
 			assigns = append(assigns, l)
 		}
 	}
@@ -238,7 +245,13 @@ func checkHistory(c *vk.Ctx, pn string, data []byte, h []string, fresh map[strin
 		ref = runSession(data, assigns)
 		c.Eval()
 		if ref.state != got.state {
-			c.Violationf("state/command-arguments-persisted", w, "option state after the history differs from the state after its option assignments alone:\n history:     %s\n assignments: %s", got.state, ref.state)
+			cl := "state/command-arguments-persisted"
+			for _, l := range h {
+				if rejected[l] {
+					cl = "state/rejected-assignment-took-effect-or-command-arguments-persisted"
+				}
+			}
+			c.Violationf(cl, w, "option state after the history differs from the state after its option assignments alone:\n history:     %s\n assignments: %s", got.state, ref.state)
 			return
 		}
 		fresh[got.state] = ref
